@@ -241,10 +241,23 @@ class FileGen:
         """returns (kind, text)"""
         r = self.rnd
         alphabet = r.choice(ALPHABETS)
-        kind = r.choices(['plain', 'wild', 'indent-chaos', 'garbage'], weights=[55, 25, 12, 8])[0]
+        kind = r.choices(['plain', 'wild', 'indent-chaos', 'garbage', 'stale'], weights=[52, 23, 12, 7, 6])[0]
         out = []
         max_depth = r.choice((0, 1, 2, 3, 4, 4))
-        if kind == 'indent-chaos':
+        if kind == 'stale':
+            # a dedent to an indent that was opened under an earlier parent: Python appends to the OLD list
+            a, b = r.sample(range(1, 6), 2)
+            lo, hi = min(a, b), max(a, b)
+            out.append(self.line(0, alphabet, False))
+            out.append(self.line(lo, alphabet, False))
+            if r.random() < 0.5:
+                out.append(self.line(lo + r.randint(1, 3), alphabet, False))
+            out.append(self.line(0, alphabet, False))
+            out.append(self.line(hi, alphabet, False))
+            out.append(self.line(lo, alphabet, False))
+            for _ in range(r.randint(0, 3)):
+                out.append(self.line(r.choice((0, lo, hi, hi + 2)), alphabet, False))
+        elif kind == 'indent-chaos':
             # random indents: dedents to unseen indents (KeyError), first line indented (IndexError),
             # stale stack entries
             pool = r.sample(range(0, 7), r.randint(2, 4))
@@ -282,6 +295,28 @@ class FileGen:
                 ln += '\n'
             out.append(ln)
         return out
+
+
+def properly_nested(text):
+    """every dedent returns to an open indent (what a conventional indentation parser accepts)"""
+    open_indents = []
+    for line in text.split('\n'):
+        if not line.strip() or line[0] == '#':
+            continue
+        indent = len(line) - len(line.lstrip(' '))
+        dedent = False
+        while open_indents and open_indents[-1] > indent:
+            open_indents.pop()
+            dedent = True
+        if not open_indents:
+            if indent != 0:
+                return False
+            open_indents.append(0)
+        elif open_indents[-1] < indent:
+            if dedent:
+                return False
+            open_indents.append(indent)
+    return True
 
 
 # ---------------------------------------------------------------- main
@@ -384,6 +419,9 @@ def main():
         except Exception:  # noqa: B902
             db = None
         distribution['generated_read_outcomes']['ok' if db is not None else 'err'] += 1
+        if db is not None and not properly_nested(text):
+            distribution['generated_read_outcomes']['ok_but_ill_nested(stale stack entry used)'] = \
+                distribution['generated_read_outcomes'].get('ok_but_ill_nested(stale stack entry used)', 0) + 1
         run.add(label + ':read_dump', 'numdb.read_dump', [text],
                 ('ok', to_wire(dump(db.prefixes))) if db is not None else ('err', 'NonValidation'),
                 {'text': text})
